@@ -9,6 +9,8 @@ extraction manifest of the run together with the sha256 of the source span:
   D5 visibility normalised: pub(crate)/pub(super) -> pub
   D6 closure wildcard |_| -> |_w|
   D8 trait-impl method re-homed in an inherent impl (Self::Assoc substituted)
+  D10 `&mut v[..]` on a named Vec local -> `v.as_mut_slice()` (same full mutable slice; vstd's IndexMut<RangeFull>
+      specification forgets the vector length)
   S1 contract clauses / loop invariants / ghost statements spliced at anchors (spec and ghost text only)
 A header that no longer matches is a lost anchor -> Undecided (exit 2), never an alarm."""
 import re, os
@@ -197,6 +199,14 @@ def pub_fields(t):
     head, body = t[:i + 1], t[i + 1:]
     body = re.sub(r'(?m)^(\s*)(?!pub\b)([a-z_][a-z_0-9]*\s*:)', r'\1pub \2', body)
     return head + body
+
+
+def full_slice_mut(s, var):
+    """D10"""
+    pat = r'&mut ' + re.escape(var) + r'\[\.\.\]'
+    if not re.search(pat, s):
+        raise Undecided('lost anchor: &mut %s[..]' % var)
+    return re.sub(pat, var + '.as_mut_slice()', s)
 
 
 def closure_wild(s):
